@@ -9,7 +9,9 @@ Layer 2 (timers): TLC checks spec/Timer.tla (set_timer/configure/arm/run/program
                   new configuration, ArmedImpliesProgrammed, and <>fire under fairness; spec mutants.
 Layer 3 (binding):harness/drv_timer.c runs seeded random populations of real timers and dispatch_after
                   blocks on the three clocks with histories of set_timer/suspend/resume/cancel and
-                  evaluates the spec's invariants on the observed events."""
+                  evaluates the spec's invariants on the observed events; with the H5 probes applied, the
+                  manager's decisions (arm, run, fire, program, timerfd event, blocking wait) of real executions
+                  are validated as behaviours of spec/TimerTrace.tla (same operators as Timer.tla)."""
 import os, re, json, collections, time, concurrent.futures
 from vlib import *
 
@@ -41,30 +43,34 @@ def drop_lines(path, *prefixes):
 # layer 1: heap
 # ----------------------------------------------------------------------------------------------
 def heap_bfs_vectors(csv, vec, nt):
-    """TLC wrote one row per transition:  Image(before);<<op,t,k1,k2>>;Image(after).
+    """TLC wrote one row per distinct state:  Image(state);{<<op,t,k1,k2>> \\o Image(successor), ...}.
     Build the state graph, a BFS tree from the empty heap, and the vector file for the driver."""
     ids = {}
     imgs = []
     edges = []
+    tup = re.compile(r"<<([^<>]*)>>")
+
+    def sid(ints):
+        k = " ".join(ints)
+        if k not in ids:
+            ids[k] = len(imgs)
+            imgs.append(k)
+        return ids[k]
     with open(csv) as f:
         for line in f:
             parts = line.rstrip("\n").split(";")
-            if len(parts) != 3:
+            if len(parts) != 2:
                 raise Broken("malformed TLC vector row: %r" % line[:200])
-            b, o, a = parts
-            for s in (b, a):
-                if s not in ids:
-                    ids[s] = len(imgs)
-                    imgs.append(s)
-            edges.append((ids[b], tuple(int(x) for x in INTS.findall(o)), ids[a]))
+            b = sid(INTS.findall(parts[0]))
+            for m in tup.finditer(parts[1]):
+                v = INTS.findall(m.group(1))
+                edges.append((b, tuple(int(x) for x in v[:4]), sid(v[4:])))
     if not edges:
         raise Broken("TLC emitted no heap transitions")
-    root = edges[0][0]
-    root_img = [int(x) for x in INTS.findall(imgs[root])]
-    if root_img[0] != 0:
-        # the first row is written by the first evaluation of Next on the initial state
-        cands = [i for i, s in enumerate(imgs) if INTS.findall(s)[0] == "0"]
-        root = cands[0]
+    cands = [i for i, im in enumerate(imgs) if im.split()[0] == "0" and im.split()[2] == "0"]   # count 0, needs_program 0
+    if len(cands) != 1:
+        raise Broken("cannot identify the empty heap among the emitted states")
+    root = cands[0]
     adj = collections.defaultdict(list)
     for b, o, a in edges:
         adj[b].append((o, a))
@@ -86,8 +92,8 @@ def heap_bfs_vectors(csv, vec, nt):
         f.write("NT %d\nS %d\n" % (nt, len(order)))
         for s in order:
             p, o = parent[s]
-            im = INTS.findall(imgs[s])
-            f.write("%d %d %d %d %d %d %d %s\n" % (ren[s], ren[p] if p >= 0 else -1, o[0], o[1], o[2], o[3], len(im), " ".join(im)))
+            im = imgs[s].split()
+            f.write("%d %d %d %d %d %d %d %s\n" % (ren[s], ren[p] if p >= 0 else -1, o[0], o[1], o[2], o[3], len(im), imgs[s]))
         f.write("E %d\n" % len(edges))
         for b, o, a in edges:
             f.write("%d %d %d %d %d %d\n" % (ren[b], o[0], o[1], o[2], o[3], ren[a]))
@@ -145,15 +151,15 @@ def run_heap_driver(v, drv, vec, tag, what):
     return res
 
 
-HEAP_INVS = "TypeOK NoErr MinimaAreReferenceMinima CountIsPopulation HeapOrder BackPointers SegmentsOK NeedsProgramOnMinChange"
 
 
 def heap_layer(v, tier, seed):
     d = rundir(PROP)
     drv = build_driver("drv_timerheap")
     # (a) complete state graph, real constant C = 8, every transition replayed
-    bfs = [("q", 3, "{0, 1, 2}", '"le"', 2)] if tier == "quick" else \
-          [("q", 3, "{0, 1, 2}", '"le"', 2), ("t4", 4, "{0, 1}", '"free"', 2), ("t3", 3, "{0, 1, 2}", '"free"', 2)]
+    bfs = [("q", 3, "{0, 1, 2}", '"le"', 2), ("e4", 4, "{0, 1}", '"eq"', 2)]
+    if tier == "thorough":
+        bfs += [("t4", 4, "{0, 1}", '"le"', 2), ("t3", 3, "{0, 1, 2}", '"free"', 2)]
     for tag, nt, keys, le, maxseg in bfs:
         csv = os.path.join(d, "heap_%s.csv" % tag)
         if os.path.exists(csv):
@@ -279,7 +285,7 @@ def timer_layer(v, tier, seed):
                        PastDelta=str(past), MaxDelta=str(mx), Intervals=ivs, MaxCalls=str(calls))
         jobs.append(("Timer_%s (timers=%d after=%s clocks=%d horizon=%d deltas=-%d..%d intervals=%s calls<=%d)" %
                      (name, nt, aft, nc, h, past, mx, ivs, calls), cfg, None, False))
-    live = [("live", {})] if tier == "quick" else [("live", {}), ("live2", dict(Horizon="4", Intervals="{1, 2, 1000}"))]
+    live = [("live", dict(Horizon="2"))] if tier == "quick" else [("live", {}), ("live2", dict(Horizon="4", Intervals="{1, 2, 1000}"))]
     for name, sub in live:
         cfg = cfg_from("Timer_live.cfg", "Timer_%s.cfg" % name, **sub)
         jobs.append(("Timer_%s (FairSpec: Fires, AfterFires)" % name, cfg, None, True))
@@ -360,6 +366,95 @@ def real_timers(v, tier, seed):
     v.notes["real_timer_oracles"] = dict(tot)
 
 
+# ----------------------------------------------------------------------------------------------
+# layer 3b: trace validation of the manager's decisions (H5 probes) against spec/TimerTrace.tla
+# ----------------------------------------------------------------------------------------------
+def probes_present():
+    try:
+        return '"tm_run"' in open(os.path.join(REPO, "src", "event", "event.c"), errors="replace").read() and \
+               '"tm_kprog"' in open(os.path.join(REPO, "src", "event", "event_epoll.c"), errors="replace").read()
+    except OSError:
+        return False
+
+
+def validate_timer_trace(path, meta):
+    r = tlc("TimerTrace.tla", "TimerTrace.cfg", workers=1, timeout=900, env={"TRACE": path}, dfs=True,
+            metaname=meta, heap="2g", extra=["-difftrace"])
+    if r.timeout:
+        raise Broken("trace validation timed out (%s)" % path)
+    if r.rc != 0 and r.violated is None and not r.accepted:
+        raise Broken("TLC failed during trace validation of %s (rc=%s):\n%s" % (path, r.rc, r.out[-3000:]))
+    why = ""
+    if r.violated:
+        m = re.search(r'bad = <<\s*"(LAW|DRIFT)",\s*"([^"]*)"', r.out, flags=re.S)
+        ls = re.findall(r"/\\ l = (\d+)", r.out)
+        k = int(ls[-1]) - 1 if ls else 0
+        lines = open(path).read().splitlines()
+        why = "%s; record #%d: %s" % (m.group(2) if m else r.violated, k, " | ".join(lines[max(1, k - 6):k]))
+    return r, why
+
+
+def timer_traces(v, tier, seed):
+    if not probes_present():
+        v.notes["trace_validation"] = "skipped: the guarded H5 probes (patches/C11-hook-timer-probes.diff) are not in this tree"
+        log("C11: trace validation of the manager's timer decisions skipped (H5 probes not applied)")
+        return
+    drv = build_driver("drv_timer")
+    d = rundir(PROP)
+    ntr, ntimers, span = (4, 30, 400) if tier == "quick" else (16, 40, 600)
+    seeds = [seed * 100000 + 5000 + i for i in range(ntr)]
+    tot = collections.Counter()
+
+    def one(s):
+        tr = os.path.join(d, "timertrace_%d.ndjson" % s)
+        fail = os.path.join(d, "timertracefail_%d.json" % s)
+        for f in (tr, fail):
+            if os.path.exists(f):
+                os.unlink(f)
+        rc, out, err = sh([drv, str(s), str(ntimers), str(span), fail, tr], timeout=400)
+        if rc != 0:
+            return s, rc, out, err, fail, None, None, ""
+        j = json.loads(out.strip().splitlines()[-1])
+        hdr = tr + ".hdr.ndjson"
+        with open(hdr, "w") as f:
+            f.write(json.dumps({"e": "Header", "nt": max(1, j["trace_slots"]), "seed": s}) + "\n")
+            f.write(open(tr).read())
+        os.unlink(tr)
+        r, why = validate_timer_trace(hdr, "C11_trace_%d" % s)
+        return s, rc, out, err, fail, j, r, why
+    with concurrent.futures.ThreadPoolExecutor(4) as ex:
+        res = list(ex.map(one, seeds))
+    for s, rc, out, err, fail, j, r, why in res:
+        if rc in (2, 70, 71):
+            p = save_replay(PROP, "timer_seed%d.json" % s, src=fail) if os.path.exists(fail) else \
+                save_replay(PROP, "timer_seed%d.json" % s, json.dumps({"seed": s, "ntimers": ntimers, "span_ms": span, "stderr": err[-3000:]}))
+            v.violation("real timers (trace mode, seed %d): %s" % (s, " ".join(l for l in err.splitlines() if "ORACLE-FAIL" in l or "CRASH" in l)[:1200]), p)
+            continue
+        if rc != 0:
+            raise Broken("drv_timer (trace mode) failed rc=%d: %s" % (rc, err[-1000:]))
+        hdr = os.path.join(d, "timertrace_%d.ndjson.hdr.ndjson" % s)
+        if r.accepted and not r.violated:
+            v.traces += 1
+            v.states += r.distinct
+            v.transitions += r.generated
+            tot["traces_accepted"] += 1
+            tot["records"] += j["trace_records"]
+            if not j["trace_exact"]:
+                v.drift.append("timer trace seed %d: a probe record referred to a timer never seen armed (probes out of date?)" % s)
+            if tot["traces_accepted"] == 1:
+                v.samples.append({"manager_trace_accepted": {"seed": s, "records": j["trace_records"],
+                                                             "excerpt": open(hdr).read().splitlines()[1:9]}})
+            os.unlink(hdr)
+        elif r.violated == "NoLawBroken":
+            p = save_replay(PROP, "timertrace_seed%d.ndjson" % s, src=hdr)
+            v.violation("recorded execution of the real timer machinery is not a behaviour of spec/TimerTrace.tla: %s" % why, p)
+        elif r.violated == "NoDrift":
+            v.drift.append("timer trace seed %d not explained structurally (probes / TimerTrace.tla out of date): %s" % (s, why[:500]))
+        else:
+            raise Broken("unexpected result of trace validation: %s\n%s" % (r.violated, r.out[-2000:]))
+    v.notes["trace_validation"] = dict(tot)
+
+
 def run(tier, seed):
     v = Verdict(PROP, tier, seed)
     v.assumptions = [
@@ -377,9 +472,14 @@ def run(tier, seed):
     build_driver("drv_timerheap")
     build_driver("drv_timer")
     # ... then the three layers are independent: real timers need wall-clock time, TLC needs CPU
-    subs = [Verdict(PROP, tier, seed) for _ in range(3)]
+    subs = [Verdict(PROP, tier, seed) for _ in range(4)]
+
+    def real(sv):
+        real_timers(sv, tier, seed)
+        if not sv.violations:
+            timer_traces(subs[3], tier, seed)
     with concurrent.futures.ThreadPoolExecutor(3) as ex:
-        fs = [ex.submit(real_timers, subs[0], tier, seed), ex.submit(heap_layer, subs[1], tier, seed),
+        fs = [ex.submit(real, subs[0]), ex.submit(heap_layer, subs[1], tier, seed),
               ex.submit(timer_layer, subs[2], tier, seed)]
         errs = []
         for f in fs:
@@ -412,6 +512,10 @@ def replay(path, seed):
         rc, out, err = sh([drv, path], timeout=900)
         print(out[-2000:], err[-3000:])
         return 0 if rc == 0 else 1
+    if path.endswith(".ndjson"):
+        r, why = validate_timer_trace(path, "C11_replay")
+        print("accepted" if r.accepted and not r.violated else "REJECTED (%s): %s" % (r.violated, why))
+        return 0 if r.accepted and not r.violated else 1
     if path.endswith(".json") and "timer_seed" in os.path.basename(path):
         j = json.load(open(path))
         print(json.dumps(j, indent=1)[:6000])
